@@ -119,6 +119,13 @@ def akai_corruptions(rng, img, part, vol, used, tier):
         vals = specials + [s, s + 1] + [u for u in used if u != s][: (len(used) if tier != "quick" else 3)]
         for v in vals:
             yield "sat[%d]=%d" % (s, v), [(SAT_OFF + 2 * s, struct.pack("<H", v & 0xFFFF))]
+    # the reserved entries at the start of the table (the first decode walk starts at entry 0): links, loops reachable from them
+    free = [x for x in range(4, 40) if x not in used][:2] + [used[0]]
+    for s0 in (0, 1, 3):
+        for v in (0, 0xC000, 0x8000, 0xFFFF, s0, s0 + 1, used[0], free[0]):
+            yield "sat[%d]=%d" % (s0, v), [(SAT_OFF + 2 * s0, struct.pack("<H", v & 0xFFFF))]
+        for a, b in ((free[0], free[0]), (free[0], free[1]), (used[0], used[0])):
+            yield "sat[%d]->%d->%d->%d" % (s0, a, b, a), [(SAT_OFF + 2 * s0, struct.pack("<H", a)), (SAT_OFF + 2 * a, struct.pack("<H", b)), (SAT_OFF + 2 * b, struct.pack("<H", a))]
     # volume entries
     for k in range(2):
         for st in (0, 1, 3, 39, 40, 0xFFFF, used[0], used[-1]):
@@ -175,16 +182,55 @@ def w_akai(pid, tier, seed, job):
     cs = list(akai_corruptions(rng, img, part, vol, used, tier))
     if tier == "quick":
         rng2 = random.Random(job + 1)
-        keep = [c for c in cs if c[0].startswith("partition-size") or "+window=" in c[0] or rng2.random() < 0.12]
+        keep = [c for c in cs if c[0].startswith("partition-size") or "+window=" in c[0] or "->" in c[0] or rng2.random() < 0.12]
         cs = keep
+    rng3 = random.Random(job + 2)
     for tag, patches in cs:
         d = bytearray(img)
         for o, b in patches:
             if 0 <= o and o + len(b) <= len(d):
                 d[o:o + len(b)] = b
         ctx.count("akai_fault", (job, tag, tuple(patches)), nontrivial=True)
-        probe(ctx, bytes(d), "a.img", None, paths if tier != "quick" else paths[:3], {"akai": job, "corruption": tag, "patches": [(o, b.hex()) for o, b in patches]})
+        case = {"akai": job, "corruption": tag, "patches": [(o, b.hex()) for o, b in patches]}
+        st = probe(ctx, bytes(d), "a.img", None, paths if tier != "quick" else paths[:3], case)
+        # tie of the termination theorems to the code on DAMAGED input: the whole-image model (total by akai_export_total)
+        # must say what the real export says - a loop in the real classes that the model's functions abstract shows up here
+        if st is not None and st[0] in ("ok", "exc") and rng3.random() < (0.06 if tier == "quick" else 0.5):
+            compare_with_model(ctx, bytes(d), case)
     return ctx.dump()
+
+
+def compare_with_model(ctx, data, case):
+    with R.TempImage(data, "a.img") as path:
+        r, tree, reported = R.export(path)
+    soft, hard = resource.getrlimit(resource.RLIMIT_AS)
+    try:
+        resource.setrlimit(resource.RLIMIT_AS, (hard, hard))          # the address-space budget is for the tool, not for the model driver
+        mv = M.res(M.call_batch("akai_export", [M.Raw(M.enc_image(data))], timeout=45)[0])
+    except (M.ModelTimeout, RuntimeError) as e:
+        # the list-based model is total but can be very slow / memory hungry when a damaged count or size field is huge:
+        # not judged (counted separately), never a verdict
+        ctx.count("akai_fault_model_not_evaluated", (case["akai"], case["corruption"], type(e).__name__), nontrivial=False)
+        ctx.note("C13: whole-image model not evaluated within 45 s on some damaged images (counted under akai_fault_model_not_evaluated)")
+        return
+    finally:
+        resource.setrlimit(resource.RLIMIT_AS, (soft, hard))
+    ctx.count("akai_fault_model", (case["akai"], case["corruption"], tuple(map(tuple, case["patches"]))), nontrivial=True)
+    if r.exc is not None or mv[0] != "ok":
+        ctx.agree("akai_export(damaged image): finishes / fails", case, r.exc is None, mv[0] == "ok")
+        return
+    got = {}
+    for pth, b in tree.items():
+        w = R.parse_wav(b)
+        got[pth] = (w.get("channels"), w.get("rate"), w.get("data", b"")) if w["ok"] else ("malformed", 0, b"")
+    mod = {"/".join("".join(map(chr, c)) for c in comps) + ".wav": (ch, rate, bytes(pcm)) for comps, rate, ch, pcm in mv[1]}
+    ctx.agree("akai_export(damaged image).paths", case, sorted(got), sorted(mod))
+    for pth in sorted(set(got) & set(mod)):
+        g, m = got[pth], mod[pth]
+        ctx.agree("akai_export(damaged image).header", dict(case, file=pth), g[:2], m[:2])
+        if g[0] == 1:
+            ctx.agree("akai_export(damaged image).pcm", dict(case, file=pth), (len(g[2]), hash(g[2])), (len(m[2]), hash(m[2])))
+        # an L/R pair: how the longer half ends is C12/C05's subject and depends on lengths a damaged header may have changed - header only
 
 
 # ------------------------------------------------------------------------------ Roland
